@@ -1016,7 +1016,7 @@ func TestVerif_C59(t *testing.T) {
 		c.Rule("codec: both directions x every sequence of <= 2 items (thorough: <= 3) over {text, binary} x payload length {0,1,125,126,127,65535,65536,70000} plus PING (0, 5, 125 octets, spliced in by an independent encoder) x MaxPayloadBytes {0,10,126,65536}; quick adds length-3 sequences over a 6-item sub-alphabet with limits {0,126}. Sender = real Conn via Message.Send; the wire image is decoded by an independent RFC 6455 codec (MASK bit by role, FIN/RSV, opcode, minimal length encoding, unmasked payload); receiver = real Conn via Codec.Receive with a type-capturing codec; oversized => ErrFrameTooLarge and the following messages intact; every PING answered by one PONG with the same payload; non-trivial = whole sequence sent, wire-checked, received and compared")
 		c.Rule("raw: the same with Conn.Write / Conn.Read and read buffers {1, 100, 128 KiB}: the octet stream and the payload type of every octet; json: JSON codec over the length boundaries; fragment: peer-encoded messages of 2..3 fragments of {0,1,126} octets, every placement of PINGs between/after fragments, read per frame (Codec.Receive) and as a stream (Read), optionally followed by a message of the other type; mask: an unmasked client frame / masked server frame (text, binary, ping, continuation; after 0..2 good messages) must make Receive/Read fail")
 		c.Rule("short-read (default transport = every Read returns all available octets; deviations on the receiver's transport, the io.Reader below its bufio.Reader): both directions x every sequence of <= 2 items (thorough: <= 3) over {text 5, binary 1, binary 126, text 65536, PING 0, 1, 2, 100, 125}, quick adds the length-3 sequences over {text 5, binary 1, PING 1, 2, 100, 125}, x { every transport Read returns at most 1 / 3 / 7 octets; the stream is cut in two at one offset, for every offset inside a PING frame or within 20 octets of a frame boundary (= every octet of every header, extended length and masking key, every octet of frames <= 40 octets) }, received with Codec.Receive (short-read) and Conn.Read with a 3-octet and a 128 KiB buffer (raw-short); short-read-2cuts: text 5 | PING n | binary 5 for n in {1,2,100,125}, both directions, every pair of cut offsets of the whole stream. Same oracles: messages intact and typed, exactly one PONG per PING with the complete payload. fragment: additionally every transport Read capped at {1,3,7} octets")
-		c.Rule("transient (environment answer of the receiver's transport; default = no error; deviation bound 1, thorough part transient-2faults: 2): both directions x every sequence of <= 2 items (thorough: <= 3) over {text 5, binary 1, PING 2, binary 126, binary 5000; thorough: + text 65536}, quick adds the length-3 sequences over the first four, x MaxPayloadBytes {0, 3, 10} (so that text 5 / binary 126 / binary 5000 are oversized and are followed by normal messages, PINGs and further oversized ones) x one transport Read that returns a timeout error (os.ErrDeadlineExceeded: Timeout() and Temporary() true) together with 0, 1 or 3 octets instead of the data and continues normally on the next call (thorough: also with every other Read capped at 3 octets), for every stream offset at which the failing call has consumed nothing the application was not told about: every frame boundary incl. the end of the stream, every offset inside the payload of a refused (oversized) message [payloads > 40 octets: within 20 octets of the payload's ends and 0/1/4095 octets past each multiple of 4096]; the application calls the failed Receive again. raw-transient: the same over sequences of <= 2 items with Conn.Read (3-octet and 128 KiB buffer), offsets = frame boundaries and inside any data frame's payload; the application calls Read again. transient-2faults (thorough): every ordered pair of such errors (0 or 1 octets; the same offset twice = the retry times out again). Same oracles: oversized => ErrFrameTooLarge and the following messages intact and typed, stream ends with io.EOF, one PONG per PING; plus the harness premise that each injected error was returned to the application exactly once")
+		c.Rule("transient (environment answer of the receiver's transport; default = no error; deviation bound 1, thorough part transient-2faults: 2): both directions x every sequence of <= 2 items (thorough: <= 3) over {text 5, binary 1, PING 2, binary 126, binary 5000}, quick adds the length-3 sequences over the first four, x MaxPayloadBytes {0, 3, 10} (so that text 5 / binary 126 / binary 5000 are oversized and are followed by normal messages, PINGs and further oversized ones) x one transport Read that returns a timeout error (os.ErrDeadlineExceeded: Timeout() and Temporary() true) together with 0, 1 or 3 octets instead of the data and continues normally on the next call (thorough: also with every other Read capped at 3 octets), for every stream offset at which the failing call has consumed nothing the application was not told about: every frame boundary incl. the end of the stream, every offset inside the payload of a refused (oversized) message [payloads > 40 octets: within 20 octets of the payload's ends and 0/1/4095 octets past each multiple of 4096]; the application calls the failed Receive again. raw-transient: the same over sequences of <= 2 items with Conn.Read (3-octet and 128 KiB buffer), offsets = frame boundaries and inside any data frame's payload; the application calls Read again. transient-big / raw-transient-big (thorough): the sequences of <= 2 items that contain text 65536 (64-bit length form, payload of several bufio / io.Copy blocks), limits {0,10}, Conn.Read with the 128 KiB buffer. transient-2faults (thorough): sequences of <= 2 items, limits {3,10}, every ordered pair of such errors (0 or 1 octets; the same offset twice = the retry times out again). Same oracles: oversized => ErrFrameTooLarge and the following messages intact and typed, stream ends with io.EOF, one PONG per PING; plus the harness premise that each injected error was returned to the application exactly once")
 		c.Assume("one goroutine, in-memory byte buffers as transport (a read at the end of the buffered stream returns io.EOF instead of blocking; a short read returns >= 1 octet, never 0,nil); masking keys are random: only MASK bit and unmasked payload are compared")
 		c.Assume("transient transport errors: the transport honours the net.Conn deadline contract that Conn.SetDeadline / SetReadDeadline hand through to it (they only forward to the underlying net.Conn: 'sets the connection's network read deadline'): a Read that fails with a timeout loses no octets and the connection stays usable, and an application may call the failed Receive/Read again. The retry is claimed only where the failed call has consumed nothing the application did not see: at a frame boundary, while Receive discards the rest of a message it has refused (documented: 'frame is not read off wire completely. The next call to Receive would read and discard leftover data of previous oversized frame'), and for Conn.Read inside a data frame ('next Read will read the rest of the frame data'). A timeout inside a frame header, inside a control frame's payload or while Receive is buffering an accepted payload makes the unchanged package lose its place in the stream too (observed); the package documents no recovery there and the property does not claim one, so these offsets are not enumerated")
 		c.Assume("Codec.Receive is documented to deliver one frame per call, so fragments are compared per frame; Conn.Read skips empty frames, so the raw oracle is the octet stream; text payloads are ASCII (UTF-8 validation is outside the property); handshake and Close are not exercised")
@@ -1080,16 +1080,29 @@ func TestVerif_C59(t *testing.T) {
 		}, c59CheckCodec)
 
 		faultAlpha := []c59Item{{'t', 5}, {'b', 1}, {'p', 2}, {'b', 126}, {'b', 5000}}
-		if !c.Quick() {
-			faultAlpha = append(faultAlpha, c59Item{'t', 65536})
-		}
 		vx.Enumerate(c, "transient", vx.Opts{NoSample: true}, c59FaultGen("codec", faultAlpha, 1, vx.Pick(c, 2, 3), []int{0, 3, 10}, []int{0}, vx.Pick(c, []int{0}, []int{0, 3}), 1), c59CheckCodec)
+		vx.Enumerate(c, "raw-transient", vx.Opts{NoSample: true}, c59FaultGen("raw", faultAlpha, 1, 2, []int{0}, []int{3, 0}, vx.Pick(c, []int{0}, []int{0, 3}), 1), c59CheckRaw)
 		if c.Quick() {
 			vx.Enumerate(c, "transient-3", vx.Opts{NoSample: true}, c59FaultGen("codec", faultAlpha[:4], 3, 3, []int{3, 10}, []int{0}, []int{0}, 1), c59CheckCodec)
 		} else {
-			vx.Enumerate(c, "transient-2faults", vx.Opts{NoSample: true}, c59FaultGen("codec", faultAlpha, 1, 2, []int{0, 3, 10}, []int{0}, []int{0}, 2), c59CheckCodec)
+			// the 64-bit length form and a payload of several bufio / io.Copy blocks: every sequence of <= 2 items that contains text 65536
+			big := c59Item{'t', 65536}
+			withBig := func(gen func(func(c59Case) bool)) func(func(c59Case) bool) {
+				return func(yield func(c59Case) bool) {
+					gen(func(x c59Case) bool {
+						for _, it := range x.Items {
+							if it == big {
+								return yield(x)
+							}
+						}
+						return true
+					})
+				}
+			}
+			vx.Enumerate(c, "transient-big", vx.Opts{NoSample: true}, withBig(c59FaultGen("codec", append(faultAlpha[:5:5], big), 1, 2, []int{0, 10}, []int{0}, []int{0}, 1)), c59CheckCodec)
+			vx.Enumerate(c, "raw-transient-big", vx.Opts{NoSample: true}, withBig(c59FaultGen("raw", append(faultAlpha[:5:5], big), 1, 2, []int{0}, []int{0}, []int{0}, 1)), c59CheckRaw)
+			vx.Enumerate(c, "transient-2faults", vx.Opts{NoSample: true}, c59FaultGen("codec", faultAlpha, 1, 2, []int{3, 10}, []int{0}, []int{0}, 2), c59CheckCodec)
 		}
-		vx.Enumerate(c, "raw-transient", vx.Opts{NoSample: true}, c59FaultGen("raw", faultAlpha, 1, 2, []int{0}, []int{3, 0}, vx.Pick(c, []int{0}, []int{0, 3}), 1), c59CheckRaw)
 
 		var jsonItems []c59Item
 		for _, n := range []int{0, 1, 123, 124, 125, 65533, 65534, 70000} { // +2 quotes => 2,3,125,126,127,65535,65536
